@@ -45,9 +45,9 @@ type c16Profile struct {
 type c16Merge struct {
 	Profiles []c16Profile `json:"profiles"`
 	Type     int          `json:"type"`
-	Orders   [][]int      `json:"orders"`  // each: a permutation of profile indices
+	Orders   [][]int      `json:"orders"`   // each: a permutation of profile indices
 	RowSeeds []uint64     `json:"rowseeds"` // per order: seed of the row shuffle inside each profile (0 = stored order)
-	Split    []bool       `json:"split"`   // per order: one MergeTrie call per profile (true) or one call with all rows
+	Split    []bool       `json:"split"`    // per order: one MergeTrie call per profile (true) or one call with all rows
 }
 
 // ---- running the writer
@@ -376,7 +376,10 @@ func c16OracleStored(r *h.Result, p c16Profile, st c16Stored) {
 
 // ---- reader side
 
-type c16Flat struct{ Parent, Fn, Node uint64; Self, Total int64 }
+type c16Flat struct {
+	Parent, Fn, Node uint64
+	Self, Total      int64
+}
 
 func c16TypeRows(st c16Stored, name string) []c16Flat {
 	// arrayFirst(y -> y.1 == name, x.4): the first value with that name
